@@ -244,22 +244,36 @@ impl GenerateConfig {
             "force": self.force.unwrap_or(false),
         });
 
-        // Ensure plugins section exists and insert typegen configuration
-        if !tauri_config.is_object() {
-            tauri_config = serde_json::json!({});
-        }
-
-        let tauri_obj = tauri_config.as_object_mut().unwrap();
+        // The settings live in the document's plugins section: a document that is not an
+        // object has no place for them, and is not replaced by one that has
+        let Some(tauri_obj) = tauri_config.as_object_mut() else {
+            return Err(ConfigError::InvalidConfig(format!(
+                "{} does not hold a JSON object",
+                path.as_ref().display()
+            )));
+        };
 
         // Create plugins section if it doesn't exist
-        if !tauri_obj.contains_key("plugins") {
+        if tauri_obj
+            .get("plugins")
+            .map_or(true, |plugins| plugins.is_null())
+        {
             tauri_obj.insert("plugins".to_string(), serde_json::json!({}));
         }
 
         // Insert typegen configuration into plugins
-        if let Some(plugins) = tauri_obj.get_mut("plugins") {
-            if let Some(plugins_obj) = plugins.as_object_mut() {
+        match tauri_obj
+            .get_mut("plugins")
+            .and_then(|plugins| plugins.as_object_mut())
+        {
+            Some(plugins_obj) => {
                 plugins_obj.insert("typegen".to_string(), typegen_config);
+            }
+            None => {
+                return Err(ConfigError::InvalidConfig(format!(
+                    "the plugins entry of {} is not an object",
+                    path.as_ref().display()
+                )));
             }
         }
 
